@@ -88,16 +88,20 @@ func ruleText(r models.Rule) string {
 		fmt.Fprintf(&b, " %q", "d_"+r.Name)
 	}
 	if !r.NoSal {
-		fmt.Fprintf(&b, " salience %d", r.Sal)
+		fmt.Fprintf(&b, " salience %s", salText(r.Sal, r.SalZeros))
 	}
 	b.WriteString("\nbegin\n  pf(@name)\n  S(@name)\n  gate(@name)\n")
+	eq := "="
+	if r.TagDecl {
+		eq = ":="
+	}
 	switch {
 	case strings.HasPrefix(r.TagCond, "="):
-		b.WriteString("  stag.StopTag = " + r.TagCond[1:] + "\n")
+		b.WriteString("  stag.StopTag " + eq + " " + r.TagCond[1:] + "\n")
 	case r.TagCond != "":
-		b.WriteString("  if " + r.TagCond + " {\n    stag.StopTag = true\n  }\n")
+		b.WriteString("  if " + r.TagCond + " {\n    stag.StopTag " + eq + " true\n  }\n")
 	case r.SetsTag:
-		b.WriteString("  stag.StopTag = true\n")
+		b.WriteString("  stag.StopTag " + eq + " true\n")
 	}
 	if r.Fails {
 		if r.FailKind > 0 && r.FailKind < len(failStmts) {
@@ -227,6 +231,19 @@ func removedNames(rs []models.Rule) []string {
 		out = append(out, r.Name)
 	}
 	return out
+}
+
+// salText spells a salience with leading zeros, which do not change its (decimal) value.
+func salText(v int64, zeros int) string {
+	s := fmt.Sprint(v)
+	if zeros <= 0 {
+		return s
+	}
+	z := strings.Repeat("0", zeros)
+	if s[0] == '-' {
+		return "-" + z + s[1:]
+	}
+	return z + s
 }
 
 func literal(v interface{}) string {
@@ -463,11 +480,15 @@ func genRules(t *rapid.T, minN, maxN int, failP, tagP, retP int) []models.Rule {
 			r.NoSal, r.Sal = true, 0
 		}
 		r.NoDesc = pct(t, fmt.Sprintf("nodesc%d", i), 10)
+		if !r.NoSal && pct(t, fmt.Sprintf("salzeros%d", i), 10) {
+			r.SalZeros = uni(t, fmt.Sprintf("nsalzeros%d", i), 1, 2)
+		}
 		r.Fails = pct(t, fmt.Sprintf("fail%d", i), failP)
 		if r.Fails && pct(t, fmt.Sprintf("failkind%d", i), 40) {
 			r.FailKind = uni(t, fmt.Sprintf("fk%d", i), 1, len(failStmts)-1)
 		}
 		r.SetsTag = pct(t, fmt.Sprintf("tag%d", i), tagP)
+		r.TagDecl = tagP > 0 && pct(t, fmt.Sprintf("tagdecl%d", i), 30)
 		if tagP > 0 && r.SetsTag && pct(t, fmt.Sprintf("tagcond%d", i), 50) {
 			r.TagCond = genBoolText(t, fmt.Sprintf("tc%d_", i), true, 3)
 			if pct(t, fmt.Sprintf("tagassign%d", i), 35) {
